@@ -22,7 +22,9 @@ def namedIcpt? : String → Option (Mode → Mode → Mode)
 def namedCheck? : String → Option (Mode → Option Code)
   | "cn" => some fun cur => if cur.normal then none else some .failedPrecondition
   | "ct" => some fun cur => if cur.title = "" then some .notFound else none
+  | "ca" => some fun cur => if cur.normal then none else some .aborted
   | "ok" => some fun _ => none
+  | "pk" => some fun _ => none                 -- the parking check of the forced-overlap rounds: never refuses
   | _ => none
 
 /-- the four tame members are tame, as before- and as after-interceptors, with any reset mask that leaves `id` alone -/
